@@ -76,6 +76,7 @@ func zzvReset() {
 	zzvFmtVals = nil
 	zzvCRn = 0
 	zzvBits = 63
+	zzvETag = `"abc"`
 }
 
 const (
@@ -151,9 +152,17 @@ func zzvReadCL(h string) (int64, bool) {
 type zzvFile struct {
 	size, pos int64
 	seeks     int
+	// the reads that handed out real bytes (content sniffing): offset of the first byte, count
+	rdPos, rdN []int64
 }
 
+// zzvByteAt is the content of the file at offset p.
+func zzvByteAt(p int64) byte { return byte(p*7 + (p>>8)*5 + 3) }
+
 func (f *zzvFile) Read(p []byte) (int, error) {
+	if len(p) == 0 {
+		return 0, nil
+	}
 	if f.pos >= f.size {
 		return 0, io.EOF
 	}
@@ -161,11 +170,14 @@ func (f *zzvFile) Read(p []byte) (int, error) {
 	if n > f.size-f.pos {
 		n = f.size - f.pos
 	}
-	for i := int64(0); i < n; i++ {
-		p[i] = byte((f.pos+i)*7 + 3)
+	i := int64(0) // the loop pins n to the (concrete) count i
+	for ; i < n; i++ {
+		p[i] = zzvByteAt(f.pos + i)
 	}
-	f.pos += n
-	return int(n), nil
+	f.rdPos = append(f.rdPos, f.pos)
+	f.rdN = append(f.rdN, i)
+	f.pos += i
+	return int(i), nil
 }
 
 func (f *zzvFile) Seek(off int64, whence int) (int64, error) {
@@ -208,12 +220,15 @@ func (f *zzvFile) take(n int64) (int64, int64) {
 type zzvRW struct {
 	h         http.Header
 	code      int
-	crAtHdr   string // Content-Range / Content-Length as they were when the status line went out
+	file      *zzvFile // the file behind the response (to identify body bytes that went through a buffer)
+	crAtHdr   string   // Content-Range / Content-Length as they were when the status line went out
 	clAtHdr   string
 	hasCE     bool
 	fileBytes int64 // bytes of the file sent as body
 	fileStart int64 // offset of the first of them
 	fileCalls int
+	scattered bool   // the body is not one contiguous slice of the file
+	alien     bool   // the body holds bytes that are not bytes the file handed out
 	text      []byte // bytes written with Write (error texts)
 }
 
@@ -244,18 +259,106 @@ func (w *zzvRW) ReadFrom(r io.Reader) (int64, error) {
 	if !ok {
 		panic("zzvRW.ReadFrom: expected *io.LimitedReader")
 	}
-	f, ok := lr.R.(*zzvFile)
-	if !ok {
-		panic("zzvRW.ReadFrom: expected the harness file")
+	switch src := lr.R.(type) {
+	case *zzvFile:
+		start, n := src.take(lr.N)
+		lr.N -= n
+		w.addChunk(start, n)
+		return n, nil
+	case *zzhNoSeek:
+		start, n := src.f.take(lr.N)
+		lr.N -= n
+		w.addChunk(start, n)
+		return n, nil
+	case io.WriterTo:
+		// a composite reader (io.MultiReader of the sniffed prefix and the file): drained through its
+		// WriteTo into a sink that stops after lr.N bytes; the stream is the same as with Read
+		sink := &zzvSink{w: w, left: lr.N, f: w.file}
+		src.WriteTo(sink)
+		n := lr.N - sink.left
+		lr.N = sink.left
+		return n, nil
 	}
-	start, n := f.take(lr.N)
-	lr.N -= n
+	panic("zzvRW.ReadFrom: expected the harness file or a composite reader over it")
+}
+
+// addChunk appends count bytes of the file starting at offset start to the body.
+func (w *zzvRW) addChunk(start, n int64) {
 	if w.fileCalls == 0 {
 		w.fileStart = start
+	} else if n != 0 && start != w.fileStart+w.fileBytes {
+		w.scattered = true
 	}
 	w.fileCalls++
 	w.fileBytes += n
+}
+
+// zzvSink receives the body from a composite reader: real bytes (Write) are identified with the file offsets
+// they were read from by their value, the file itself (ReadFrom) hands over (offset, count).
+type zzvSink struct {
+	w    *zzvRW
+	f    *zzvFile
+	left int64
+}
+
+var errZzvSinkFull = errors.New("zzvSink: limit reached")
+
+func (s *zzvSink) Write(b []byte) (int, error) {
+	m := int64(len(b))
+	short := false
+	if m > s.left {
+		m = int64(verifrt.Concretize(uint64(s.left)))
+		short = true
+	}
+	if m > 0 {
+		off, ok := int64(0), false
+		if s.f != nil {
+			off, ok = s.f.locate(b[:m])
+		}
+		if !ok {
+			s.w.alien = true
+		}
+		s.w.addChunk(off, m)
+		s.left -= m
+	}
+	if short {
+		return int(m), errZzvSinkFull
+	}
+	return int(m), nil
+}
+
+func (s *zzvSink) ReadFrom(r io.Reader) (int64, error) {
+	f, ok := r.(*zzvFile)
+	if ns, isNs := r.(*zzhNoSeek); isNs {
+		f, ok = ns.f, true
+	}
+	if !ok {
+		panic("zzvSink.ReadFrom: expected the harness file")
+	}
+	start, n := f.take(s.left)
+	s.left -= n
+	s.w.addChunk(start, n)
 	return n, nil
+}
+
+// locate finds the offset at which the file handed out the bytes b (by value, among the recorded reads).
+func (f *zzvFile) locate(b []byte) (int64, bool) {
+	m := int64(len(b))
+	for e := range f.rdPos {
+		for d := int64(0); d+m <= f.rdN[e]; d++ {
+			match := true
+			for j := int64(0); j < m; j++ {
+				if b[j] != zzvByteAt(f.rdPos[e]+d+j) {
+					match = false
+					break
+				}
+			}
+			if match {
+				return f.rdPos[e] + d, true
+			}
+		}
+	}
+	return 0, false
 }
 
 // ---------------------------------------------------------------------------------------------------
@@ -354,9 +457,15 @@ type zzvRequest struct {
 	ifMatch  int    // If-Match: 0 absent, 1 the ETag, 2 another ETag, 3 the ETag as weak validator, 4 "*", 5 a list containing it
 	raw      bool   // raw-block pipeline (handler_block.go / handler_codec.go) instead of the UnixFS-file pipeline
 	text     string // when set: the literal Range header (HarnessC30Text); specs then hold its reference parse
+
+	// the real handler.serveDefaults over a stub backend (c30_handler.go) instead of the harness composition
+	handler bool
+	ctSrc   int  // content type from: 0 the file extension, 1 the backend, 2 nowhere (sniffed)
+	limits  bool // MaxRangeRequestFileSize, MaxUnixFSDAGResponseSize, MaxDeserializedResponseSize configured (and not exceeded)
 }
 
-const zzvETag = `"abc"`
+// zzvETag is the ETag of the response: set by the harness composition, or by the real handler ("<cid>").
+var zzvETag = `"abc"`
 
 func (q *zzvRequest) rangeHeader() string {
 	if !q.hasRange {
@@ -498,8 +607,12 @@ func zzvServeRawBlock(w *zzvRW, r *http.Request, f *zzvFile) {
 }
 
 func zzvServe(q *zzvRequest, size int64) *zzvRW {
-	w := &zzvRW{h: http.Header{}}
 	f := &zzvFile{size: size}
+	w := &zzvRW{h: http.Header{}, file: f}
+	if q.handler {
+		zzhServeDefaults(w, q, f)
+		return w
+	}
 	if q.raw {
 		zzvServeRawBlock(w, q.build(), f)
 	} else {
@@ -524,6 +637,10 @@ func zzvCheck(q *zzvRequest, size int64, w *zzvRW) {
 	code := w.code
 	if code == 400 && q.raw && strings.Contains(string(w.text), "could not seek to location") {
 		// serve_http_content.go seekToStartOfFirstRange: the seek to the first range failed
+		code = zzvBackendError
+	}
+	if code == 500 && q.handler && strings.Contains(string(w.text), zzhSeekFailed) {
+		// the stub backend's Get failed to position the reader at the first range
 		code = zzvBackendError
 	}
 	verifrt.Observe("status", code)
@@ -571,6 +688,8 @@ func zzvCheck(q *zzvRequest, size int64, w *zzvRW) {
 	if q.head {
 		verifrt.Assert("C30.head-has-no-body", w.fileBytes == 0)
 	}
+	verifrt.Assert("C30.body-bytes-are-file-bytes", !w.alien)
+	verifrt.Assert("C30.body-is-one-contiguous-slice", !w.scattered)
 	if code != 200 && code != 206 {
 		verifrt.Assert("C30.no-file-bytes-without-2xx", w.fileBytes == 0)
 	}
